@@ -82,7 +82,7 @@ func (r kfPanicRegistry) Validates(name, data string) bool {
 	return r.Registry.Validates(name, data)
 }
 
-func TestKF_D8_double_redeem(t *testing.T) {
+func TestFixed_D8_double_redeem(t *testing.T) {
 	var sch spec.Schema
 	if err := json.Unmarshal([]byte(`{"type":"string","format":"boom"}`), &sch); err != nil {
 		t.Fatal(err)
